@@ -5,10 +5,18 @@ V = os.path.dirname(os.path.dirname(os.path.abspath(__file__)))
 ALL = [f'C{i:02d}' for i in range(1, 20)]
 
 CLAIMED = {
+ 'C06': dict(
+   text="Lean 4 theorems over a regex AST with an executable position-set matcher: for every regex and every string an unanchored search for ^(?:p)$ succeeds iff p matches the whole string (C06_anchoring is stated for the wrap *extracted from compile_filters on this run*, so it stops checking if the wrap changes); apply_filters = root exempt, last matching filter decides, default = opposite of the first sign. Tie: the real compile_filters + apply_filters vs the model on grammar-generated (filter list, path) pairs, plus an independent whole-path oracle (\\A(?:p)\\z through the regex crate) that also judges out-of-subset syntax. 'Hidden entries are never read' and 'same verdict on both sides' are carried by the walker/boss models (C17, C02).",
+   note="Trusted: Lean kernel; the regex crate's semantics (also the oracle's engine); the AST-level model of text concatenation precedence (validated by the differential stream); extraction of the wrap strings.",
+   technique="Lean 4 proof (matcher lemmas, fold lemma) over extracted wrap + L1 differential with independent oracle", design="§3 C06"),
  'C11': dict(
    text="Lean 4 theorems: the look-ahead chunk reader emits, for every file length and every short-read schedule, chunks whose concatenation is the file, exactly the last one flagged 'no more', none empty, all within the maximum; the boss's chunk relay succeeds iff the stream is terminated and totals the listed size (any growth/shrink => error) and forwards exactly the consumed chunks with the time stamp on the last; the largest chunk fits the frame buffers (constants extracted from the source on every run). Tie: real GetFileContent / CreateOrUpdateFile on real files of every boundary length (chunk sequence = model, CRC per chunk, bytes+mtime read back) and the real sync() relaying scripted growing/shrinking sources.",
    note="Trusted: Lean kernel; host read(2)/write(2) (regular files give full reads: short-read schedules are covered by the theorem only); extraction of the four chunk constants and the buffer size; differential tie bounded by the lengths listed in the evidence.",
    technique="Lean 4 proof (functional induction over the reader, induction over the chunk stream) + L3/L2 correspondence", design="§3 C11"),
+ 'C16': dict(
+   text="Lean 4: the five all-destructive blocks, flag overrides and defaults of resolve_spec are extracted from the source text into Generated.fieldRules on every run; C16_precedence is proved by kernel evaluation over the whole finite product (5 fields x {absent,4}^3) against the documented rule and defaults; filters replace; deploy flag > spec > default; spec file == SRC DEST; malformed spec values (non-dictionary root, unknown/non-string keys, wrong types, bad enum values, missing/empty src/dest) are rejected by the model of parse_spec_file over an abstract YAML value. Tie: real clap + yaml-rust + resolve_spec on the exhaustive per-field product, random joint assignments with several syncs, mutated spec texts and path-argument strings, exact equality of the effective spec; independent documented-precedence oracle.",
+   note="Trusted: Lean kernel; yaml-rust (text -> value) and clap (argv -> options) as they are; the Defaults extractor (fails closed: an unrecognised block becomes a rule no theorem accepts).",
+   technique="Lean 4 proof by exhaustive kernel evaluation over extracted rules + structural lemmas; L1 exhaustive/differential tie", design="§3 C16"),
  'C13': dict(
    text="Lean 4 theorems over the planner model (closed form as inductive invariant of the arrival handlers => same to_delete/to_copy for every interleaving and sibling order; iteration order = reversed dest arrival / source arrival, no key twice), unbounded in tree size and schedule; model tied to boss_sync.rs by exact trace equality of the real sync() vs the model on exhaustively enumerated interleavings of small tree pairs and sampled larger ones (scripted doers, one message in flight).",
    note="Trusted: Lean kernel (+propext, Classical.choice, Quot.sound); correspondence is differential (what the tie has seen is in the evidence); parent-before-child listing order is C17's guarantee; crossbeam select.",
